@@ -1543,6 +1543,12 @@ class PCE500Emulator:
             # The step loop consults the halted flag: without it a machine restored
             # while halted or powered off keeps running.
             "halted": bool(getattr(self.cpu.state, "halted", False)),
+            # Pending key-interrupt latch and the last values written to tracked IMEM
+            # registers (used to recognise firmware clearing ISR.KEYI).
+            "key_irq_latched": bool(getattr(self, "_key_irq_latched", False)),
+            "last_imem_values": {
+                str(k): int(v) for k, v in getattr(self, "_last_imem_values", {}).items()
+            },
         }
 
         kb_metrics = {
@@ -1763,6 +1769,11 @@ class PCE500Emulator:
             self.irq_bit_watch = irq_watch
         if "halted" in interrupts:
             self.cpu.state.halted = bool(interrupts["halted"])
+        if "key_irq_latched" in interrupts:
+            self._key_irq_latched = bool(interrupts["key_irq_latched"])
+        last_imem = interrupts.get("last_imem_values")
+        if isinstance(last_imem, dict):
+            self._last_imem_values = {str(k): int(v) & 0xFF for k, v in last_imem.items()}
 
         kb_metrics = metadata.get("kb_metrics", {})
         self._kb_irq_count = int(kb_metrics.get("irq_count", 0))
